@@ -124,3 +124,46 @@ package gsm7encoding
 //@   loop 1
 //@     invariant -1 <= rangeindex && alloc <= entry(alloc)
 //@     decreases runecount(text) - rangeindex
+
+// ---------------------------------------------------------------- stream transformers (C08 agreement, C03)
+// The transformers repeat the loops of Unpack / Decode and Encode / Pack; their loops carry the same invariants.
+
+//@ func (g *gsm7Decoder) Transform
+//@   mode bv
+//@   option repr = arr
+//@   props C08,C03
+//@   requires g != nil
+//@   ensures [C03 bounds] 0 <= nDst && nDst <= len(dst)
+//@   ensures [C08 empty] len(src) == 0 ==> nDst == 0 && nSrc == 0 && err == nil
+//@   loop 1
+//@     invariant 0 <= count && count <= len(src) && remain == len(src) - count
+//@     invariant count == len(src) || count % 7 == 0
+//@     invariant len(septets) == 8 * count / 7 || (count == len(src) && count > 0 && count % 7 == 0 && len(septets) == 8 * count / 7 - 1 && specSeptet(src, 8 * count / 7 - 1) == 0)
+//@     invariant forall j int :: 0 <= j && j < len(septets) ==> septets[j] == specSeptet(src, j)
+//@     decreases remain
+//@   loop 2
+//@     invariant 0 <= nSeptet && nSeptet <= len(septets)
+//@     decreases len(septets) - nSeptet
+//@   loop 3
+//@     invariant -1 <= rangeindex && rangeindex < len(text) && len(text) <= len(dst)
+//@     decreases len(text) - rangeindex
+
+//@ func (g *gsm7Encoder) Transform
+//@   mode bv
+//@   option repr = arr
+//@   props C08,C03
+//@   requires g != nil
+//@   ensures [C03 bounds] 0 <= nDst && nDst <= len(dst)
+//@   ensures [C08 empty] len(src) == 0 ==> nDst == 0 && nSrc == 0 && err == nil
+//@   loop 1
+//@     invariant 0 <= rangepos && rangepos <= len(text) && 0 <= nSrc
+//@     decreases len(text) - rangepos
+//@   loop 2
+//@     invariant -1 <= rangeindex && rangeindex < len(septets) && len(septets) <= len(dst)
+//@     decreases len(septets) - rangeindex
+//@   loop 3
+//@     invariant 0 <= nSeptet && nSeptet <= len(septets) && remain == len(septets) - nSeptet
+//@     invariant nDst == (7 * nSeptet + 7) / 8 && (nSeptet == len(septets) || nSeptet % 8 == 0)
+//@     invariant (7 * len(septets) + 7) / 8 <= len(dst)
+//@     invariant forall m int :: 0 <= m && m < nDst ==> dst[m] == specOctet(septets, m)
+//@     decreases remain
